@@ -45,11 +45,16 @@ struct Cfg {
     gkind: GKind,
     def_level: usize,
     ext: Option<Ext>,
+    /// the sibling subcommand is a user-defined `help` (generated help subcommand disabled)
+    user_help: bool,
 }
 
 impl Cfg {
+    fn sibling(&self) -> &'static str {
+        if self.user_help { "help" } else { "sx" }
+    }
     fn name(&self) -> String {
-        format!("naming={:?} global={:?}@{} ext={:?}", self.naming, self.gkind, self.def_level, self.ext)
+        format!("naming={:?} global={:?}@{} ext={:?}{}", self.naming, self.gkind, self.def_level, self.ext, if self.user_help { " sibling=user-defined help" } else { "" })
     }
     fn global_arg(&self) -> ArgSpec {
         let mut g = match self.gkind {
@@ -98,7 +103,10 @@ impl Cfg {
         if let Some(e) = self.ext {
             sb.external = Some(e);
         }
-        let mut sx = CmdSpec::new("sx");
+        let mut sx = CmdSpec::new(self.sibling());
+        if self.user_help {
+            root.set(Setting::DisableHelpSubcommand);
+        }
         sx.args.push(ArgSpec::flag("px", Some('p'), None));
         self.decorate(&mut sb, 'B', "sb-flag");
         self.decorate(&mut sa, 'A', "sa-flag");
@@ -324,8 +332,14 @@ fn lines(c: &Cfg, max_chain: usize, thorough: bool) -> Vec<Line> {
         out.push(mk(&["-pAq", "-p"], &["sa"], vec![(true, false), (true, true)], "group then a later group"));
     }
     // sibling dispatch
-    for (tok, _) in c.spellings("sx", 'X', "sx-flag") {
-        out.push(Line { argv: vec![tok.into_bytes()], chain: vec!["sx".into()], locals: vec![(false, false), (false, false)], globals: vec![vec![], vec![]], ext: None, desc: "sibling".into() });
+    for (tok, _) in c.spellings(c.sibling(), 'X', "sx-flag") {
+        out.push(Line { argv: vec![tok.clone().into_bytes()], chain: vec![c.sibling().into()], locals: vec![(false, false), (false, false)], globals: vec![vec![], vec![]], ext: None, desc: "sibling".into() });
+        if c.def_level == 0 {
+            // the global supplied inside the sibling
+            let (gtok, gval) = if takes { ("--glob=vs".to_string(), "vs".to_string()) } else { ("--glob".to_string(), String::new()) };
+            out.push(Line { argv: vec![tok.clone().into_bytes(), gtok.clone().into_bytes()], chain: vec![c.sibling().into()], locals: vec![(false, false), (false, false)], globals: vec![vec![], vec![gval.clone()]], ext: None, desc: "sibling with the global".into() });
+            out.push(Line { argv: vec![gtok.into_bytes(), tok.into_bytes()], chain: vec![c.sibling().into()], locals: vec![(false, false), (false, false)], globals: vec![vec![gval], vec![]], ext: None, desc: "global, then sibling".into() });
+        }
     }
     out
 }
@@ -376,9 +390,6 @@ fn judge(c: &Cfg, spec: &CmdSpec, cmd: &clap::Command, ln: &Line, h: &mut Hist) 
         bad.push(("reported subcommand chain differs from the chain named on the line".into(), format!("got {:?} want {:?}", got_chain, ln.chain)));
         return bad;
     }
-    if ln.chain.first().map(|s| s == "sx").unwrap_or(false) {
-        return bad;
-    }
     // locals per level
     for (level, (p, q)) in ln.locals.iter().enumerate() {
         let Some(lo) = level_obs(&ob, level) else { continue };
@@ -391,6 +402,10 @@ fn judge(c: &Cfg, spec: &CmdSpec, cmd: &clap::Command, ln: &Line, h: &mut Hist) 
                 ));
             }
         }
+    }
+    // the sibling is not below the level that defines a level-1 global
+    if c.def_level == 1 && ln.chain.first().map(|s| s == c.sibling()).unwrap_or(false) {
+        return bad;
     }
     // global
     let k = ln.chain.len();
@@ -447,7 +462,10 @@ fn cfgs() -> Vec<Cfg> {
         for gkind in GKINDS {
             for def_level in [0usize, 1] {
                 for ext in [None, Some(Ext::Str), Some(Ext::Os)] {
-                    v.push(Cfg { naming, gkind, def_level, ext });
+                    v.push(Cfg { naming, gkind, def_level, ext, user_help: false });
+                    if naming == Naming::Name && ext.is_none() {
+                        v.push(Cfg { naming, gkind, def_level, ext, user_help: true });
+                    }
                 }
             }
         }
@@ -456,7 +474,7 @@ fn cfgs() -> Vec<Cfg> {
 }
 
 fn cfg_json(c: &Cfg) -> Value {
-    json!({"naming": format!("{:?}", c.naming), "gkind": format!("{:?}", c.gkind), "def_level": c.def_level, "ext": c.ext.map(|e| format!("{:?}", e))})
+    json!({"naming": format!("{:?}", c.naming), "gkind": format!("{:?}", c.gkind), "def_level": c.def_level, "ext": c.ext.map(|e| format!("{:?}", e)), "user_help": c.user_help})
 }
 fn cfg_from(v: &Value) -> Option<Cfg> {
     Some(Cfg {
@@ -468,6 +486,7 @@ fn cfg_from(v: &Value) -> Option<Cfg> {
             Some("Os") => Some(Ext::Os),
             _ => None,
         },
+        user_help: v["user_help"].as_bool().unwrap_or(false),
     })
 }
 
